@@ -123,6 +123,35 @@ var props = []PropSpec{
 				Bounds: "templates of 1..2 (quick) / 1..3 (thorough) positions, each a known element (6 kinds) or an unknown one (IANA id 999, enterprise 9999, Antrea id 9999) of fixed length 1,2,5 or variable length (payload 0,3,255 bytes); 1 / 1..2 records; all values symbolic"},
 		},
 	},
+	{
+		ID: "C05", Pkg: "./c05", ReplayPkg: "./cmd/rc05", Level: "model_checking",
+		Assumptions: append([]string{
+			"exporter contract of the statement is ASSUMED for the incoming record: end > start, end strictly above that node's previous end, totals not below that node's previous totals, delta sums and 8 x growth representable in 64 bits",
+			"representation invariant assumed for the arbitrary pre-state: the common end time is the latest of the node end times; a node that has not reported has zero fields; a flow that needs no correlation has identical source- and destination-node fields",
+			"where the statement is silent the oracle accepts both outcomes: equal end times (common fields), a reporter whose total is below the stored common total",
+			"5-tuples are concrete (the flow key is only compared for equality; net.IP.String of symbolic bytes is formatting); httpVals merging (JSON, reflection) is not configured",
+		}, codecAssumptions...),
+		Harnesses: []HarnessSpec{
+			{Func: "Check_Step", Reach: []string{"stepped", "first-record-of-node"}, Tune: func(c *sym.Config, th bool) { c.ClockMode = "frozen" },
+				Bounds: "inductive step: arbitrary aggregated flow (8 stats x {common, source, destination}, 6 throughput fields, 3 end times, all symbolic) + one symbolic incoming record from the source node, the destination node (with either node having created the flow) or a single uncorrelated stream"},
+			{Func: "Check_Reset", Reach: []string{"reset"}, Tune: func(c *sym.Config, th bool) { c.ClockMode = "frozen" }, Bounds: "reset from an arbitrary symbolic state, 3 keys (IPv4 and IPv6)"},
+			{Func: "Check_History", Reach: []string{"non-interference", "several-flows"}, Tune: func(c *sym.Config, th bool) { c.ClockMode = "frozen" },
+				Bounds: "2 (quick) / 3 (thorough) records with symbolic counters over 3 five-tuples (IPv4, IPv6), a reset optionally before each; compared with a second process fed only the watched flow's records"},
+		},
+	},
+	{
+		ID: "C06", Pkg: "./c06", ReplayPkg: "./cmd/rc06", Level: "model_checking",
+		Assumptions: append([]string{
+			"virtual time: the clock stands still at T0 (engine: frozen clock) and deadlines are placed at T0 + k*2^30 ns with k symbolic in [-400,400] - equivalent to letting arbitrary time pass, because the code only uses Now/Add/Sub/Before/After; native replays run against the real clock, whose drift during a run is far below 2^30 ns",
+			"a deadline EXACTLY equal to the scan instant (k = 0) is excluded: it cannot be staged against the real clock and the statement leaves that instant open",
+			"inductive step: the pre-state is produced by the real operations (create, Update + heap.Fix via the VerifSetDeadlines hook) with symbolic deadlines, readiness and retry counts, so every valid (map, heap) arrangement of up to N flows arises",
+		}, codecAssumptions...),
+		Harnesses: []HarnessSpec{
+			{Func: "Check_Step", Reach: []string{"record", "scan", "callback-failed", "inactive-expiry-removes", "active-expiry-keeps", "not-ready", "expiry", "expiry-empty"},
+				Tune: func(c *sym.Config, th bool) { c.ClockMode = "frozen" },
+				Bounds: "0..2 (quick) / 0..3 (thorough) flows with symbolic active/inactive deadlines, readiness and retry count; one step: record for an existing or new key, expiry scan with the callback failing on any subset of keys, or GetExpiryFromExpirePriorityQueue"},
+		},
+	},
 }
 
 var _ = sym.Config{}
